@@ -2,6 +2,9 @@ import KV.Model.World
 import KV.Proofs.World
 import KV.Proofs.WorldRevert
 import KV.Proofs.WorldEffective
+import KV.Proofs.WorldReach
+import KV.Proofs.WorldCopy
+import KV.Proofs.WorldTrack
 /-!
 # C08 — State changes are atomic: revert restores exactly; root depends on content only
 
@@ -14,7 +17,15 @@ functions used below (`step`, `snapshot`, `revertTo`, `finalise`, `iroot`, `comm
 * `C08_root_of_effective_ops` — a block of structured transactions ends in the same core (hence the same
                             content, hence the same value of any function of the content such as the
                             state root) as the block with reverted scopes removed
-* `C08_copy_*`            — the model's `Copy()`
+* `C08_copy_*`            — the model's `Copy()`: `C08_copy_obs` under `CleanInv`; `C08_reach_cleanInv` proves
+                            `CleanInv` for every reachable world (`Reach`, `KV/Proofs/WorldReach.lean`), hence
+                            the unconditional `C08_copy_obs_reach`; `C08_copy_independent(_obs)`,
+                            `C08_copy_commit_root`; `C08_copy_obs_midtx_counterexample` shows that the
+                            restriction of `Reach` to between-transaction copies is necessary (and
+                            `C08_copy_obs_reachAny` what survives without it)
+* `C08_readback*`         — a state reopened at the committed root observes exactly the committed observables
+                            of the committing state, and exactly what was written before the commit
+* `C08_*_reach`           — (2) and (3) without side hypotheses, for every reachable world
 -/
 namespace KV.World
 
@@ -55,58 +66,8 @@ theorem C08_stale_revert_no_change (id : Nat) (w : World) (h : revertTo id w = n
     step (.revert id) w = (w, .panic) := by
   simp [step, h]
 
-/-- commands between transactions -/
-inductive Boundary where
-  | prepare (h : TxH) (ti : Nat)
-  | finalise (del : Bool)
-  | iroot (del : Bool)
-  | commit (del : Bool)
-
-def bnd : Boundary → World → World
-  | .prepare h ti, w => prepare h ti w
-  | .finalise d, w => finalise d w
-  | .iroot d, w => iroot d w
-  | .commit d, w => commit d w
-
-/-- everything the harness can do to one instance -/
-inductive Cmd where
-  | op (o : Op)
-  | bnd (b : Boundary)
-  | copy
-  | reopen
-
-def exec : Cmd → World → World
-  | .op o, w => (step o w).1
-  | .bnd b, w => bnd b w
-  | .copy, w => copy w
-  | .reopen, w => reopen w
-
-theorem revsOK_nil (n : Nat) : RevsOK [] n := ⟨List.Pairwise.nil, by simp⟩
-
-theorem bnd_revsOK (b : Boundary) (w : World) (h : RevsOK w.revs w.nextId) : RevsOK (bnd b w).revs (bnd b w).nextId := by
-  cases b with
-  | prepare _ _ => exact h
-  | finalise _ => exact revsOK_nil _
-  | iroot _ => exact revsOK_nil _
-  | commit _ => exact revsOK_nil _
-
-theorem step_revsOK (o : Op) (w : World) (h : RevsOK w.revs w.nextId) :
-    RevsOK (step o w).1.revs (step o w).1.nextId := by
-  cases o with
-  | j o => exact h
-  | snapshot => exact (inv_snapshot w h).1
-  | revert id =>
-    simp only [step]
-    cases hr : revertTo id w with
-    | none => exact h
-    | some w' =>
-      unfold revertTo at hr
-      cases hf : findRev w.revs id with
-      | none => simp [hf] at hr
-      | some p =>
-        simp only [hf, Option.some.injEq] at hr
-        subst hr
-        exact revsOK_take _ h
+/-! `Boundary`, `bnd`, `Cmd`, `exec` (everything the harness can do to one instance) and the closure
+`ReachS` / `Reach` / `ReachAny` are defined in `KV/Proofs/WorldReach.lean`. -/
 
 /-- the hypothesis of `C08_revert_snapshot` holds in every reachable world -/
 theorem C08_revsOK_reachable (cmds : List Cmd) :
@@ -180,12 +141,6 @@ theorem C08_root_of_effective_ops_content {R : Type} (root : (Addr → Option Ac
 
 /-! ## (4) Copy -/
 
-/-- objects that `Copy()` does not copy (not named by the journal, not in the dirty/pending sets) are
-re-read from the trie; they agree with the trie when they are clean: -/
-def CleanInv (w : World) : Prop :=
-  ∀ a o, w.core.objs a = some o → dirtyAddrs w.journal a = false → o.inDirty = false →
-    o.inPending = false → o.deleted = false → o.cur = o.com ∧ o.suicided = false
-
 /-- a copy has no journal and no revisions: every `RevertToSnapshot` on it is rejected
 ("Snapshots of the copied state cannot be applied to the copy") -/
 theorem C08_copy_fresh (w : World) (id : Nat) : revertTo id (copy w) = none := by
@@ -230,6 +185,321 @@ theorem C08_copy_midtx_counterexample :
     (content (finalise true (copy (run [.j (.setBalance 1 5), .j (.suicide 1)] World.init))) 1).isSome = true := by
   decide
 
+/-! ## (5) every reachable world: `Copy()` unconditionally
+
+`Reach` = closure of `World.init` under every journalled operation, `Snapshot`, `RevertToSnapshot(id)` for
+ANY id (valid ones revert, the others are rejected), `Prepare`, `Finalise`, `IntermediateRoot`, `Commit`
+(either flag), `reopen`, and `Copy()` *between transactions* (empty journal; the assumption under which
+the code offers `Copy`, see `checks.d/C08.json`).  `ReachAny` additionally allows `Copy()` anywhere. -/
+
+/-- the closure really contains every run of every command sequence (mid-transaction copies included) -/
+theorem C08_reachAny_exec (cmds : List Cmd) : ReachAny (cmds.foldl (fun w c => exec c w) World.init) :=
+  reachS_exec cmds .init rfl
+
+/-- the hypothesis of `C08_revert_snapshot` / `C08_root_of_effective_ops` holds in every reachable world -/
+theorem C08_reach_revsOK (w : World) (h : ReachAny w) : RevsOK w.revs w.nextId := reachS_revsOK h
+
+/-- **revert_snapshot without side hypotheses**: in every reachable world `s` (any history, copies and
+reopened states included), after `Snapshot(); ops` for ANY `ops` an accepted `RevertToSnapshot` of that id
+restores core, journal, revision list and hence all 15 getters of `s` -/
+theorem C08_revert_snapshot_reach (s : World) (hs : ReachAny s) (ops : List Op) (w' : World)
+    (hr : revertTo s.nextId (run ops (snapshot s)) = some w') :
+    w'.core = s.core ∧ w'.journal = s.journal ∧ w'.revs = s.revs ∧ obs w' = obs s :=
+  have h := C08_revert_snapshot s ops w' (C08_reach_revsOK s hs) hr
+  ⟨h.1, h.2.1, h.2.2, C08_revert_snapshot_obs s ops w' (C08_reach_revsOK s hs) hr⟩
+
+/-- **`CleanInv` holds in every reachable world** (one preservation lemma per command in
+`KV/Proofs/WorldReach.lean`; the invariant `WInv` is `Tidy` at every prefix of the journal) -/
+theorem C08_reach_cleanInv (w : World) (h : Reach w) : CleanInv w := winv_cleanInv (reachS_winv h)
+
+/-- … its storage half also with mid-transaction copies among the ancestors -/
+theorem C08_reachAny_cleanInvW (w : World) (h : ReachAny w) : CleanInvW w := winv_cleanInvW (reachS_winv h)
+
+/-- **copy_obs, unconditional**: in every reachable world the copy observes exactly what the original
+observes (all 15 getters).  Note that `w` itself may be in the middle of a transaction: the restriction
+in `Reach` is on the *ancestors* of `w`. -/
+theorem C08_copy_obs_reach (w : World) (h : Reach w) : obs (copy w) = obs w :=
+  C08_copy_obs w (C08_reach_cleanInv w h)
+
+/-- with mid-transaction copies among the ancestors the copy still observes every getter of the original
+except `HasSuicided` -/
+theorem C08_copy_obs_reachAny (w : World) (h : ReachAny w) : (obs (copy w)).noSuicide = (obs w).noSuicide :=
+  copy_obs_noSuicide w (C08_reachAny_cleanInvW w h)
+
+/-- a copy taken between transactions commits to the same content as the original, hence to the same
+value of any function of the content (the state root) -/
+theorem C08_copy_commit_root {R : Type} (root : (Addr → Option Account) → R) (w : World) (h : Reach w)
+    (hj : w.journal = []) (del : Bool) :
+    root (content (commit del (copy w))) = root (content (commit del w)) := by
+  rw [copy_commit_content w (C08_reachAny_cleanInvW w h.weaken)
+    (C08_reachAny_cleanInvW _ (ReachS.copy h (fun _ => hj)).weaken) hj del]
+
+/-- **transaction-boundary law**: in every reachable world an account that the open transaction has not
+touched (no journal entry names it) reads the same through `GetCommittedState` and `GetState`; in
+particular the two getters coincide on all accounts whenever the journal is empty (after `Finalise`).
+This is the "original value" that SSTORE gas metering reads. -/
+theorem C08_committed_eq_state_untouched (w : World) (h : Reach w) (a : Addr)
+    (hD : dirtyAddrs w.journal a = false) : (obs w).committed a = (obs w).state a :=
+  winv_committed_eq_state (reachS_winv h) a hD
+
+/-- … which a mid-transaction copy breaks: the copy has the uncommitted write but no journal -/
+theorem C08_committed_eq_state_midtx_counterexample :
+    ReachAny (copy (run [.j (.setState 1 2 7)] World.init)) ∧
+    (copy (run [.j (.setState 1 2 7)] World.init)).journal = [] ∧
+    (obs (copy (run [.j (.setState 1 2 7)] World.init))).state 1 2 = 7 ∧
+    (obs (copy (run [.j (.setState 1 2 7)] World.init))).committed 1 2 = 0 :=
+  ⟨ReachS.copy (reachS_run _ ReachS.init) (by simp), by decide⟩
+
+/-- the world of `note:copy-of-midtx-copy-differs`: SetBalance, Suicide, Copy (mid-transaction), Commit on the copy -/
+def midtxWitness : World :=
+  commit false (copy (run [.j (.setBalance 1 5), .j (.suicide 1)] World.init))
+
+/-- **The restriction to between-transaction copies is necessary** (`reach_cleanInv` and
+`copy_obs_reach` are FALSE for `ReachAny`): a copy taken after `Suicide` and before `Finalise` keeps the
+mark but not the journal entry, so its `Commit` does not delete the account and leaves a clean live
+object with the mark; a copy of *that* re-reads the account from the trie and has lost the mark.
+The real `StateDB` does the same (replayed in-package: `notes/C08.md`, "mid-transaction Copy"). -/
+theorem C08_copy_obs_midtx_counterexample :
+    ReachAny midtxWitness ∧ ¬ CleanInv midtxWitness ∧
+    (obs midtxWitness).suicided 1 = true ∧ (obs (copy midtxWitness)).suicided 1 = false ∧
+    obs (copy midtxWitness) ≠ obs midtxWitness := by
+  have h1 : (obs midtxWitness).suicided 1 = true := by decide
+  have h2 : (obs (copy midtxWitness)).suicided 1 = false := by decide
+  have hne : obs (copy midtxWitness) ≠ obs midtxWitness := by
+    intro he
+    rw [he, h1] at h2
+    exact absurd h2 (by decide)
+  refine ⟨?_, fun hc => hne (C08_copy_obs _ hc), h1, h2, hne⟩
+  exact ReachS.bnd (.commit false) (ReachS.copy (reachS_run _ ReachS.init) (by simp))
+
+/-! ### a copy is independent of the original
+
+The model is a pure function of the instance, so "operations on the copy do not change the original" holds
+by construction; it is stated for the system of two instances on which ANY interleaving of commands runs
+(`runPair`, side `true` = original, `false` = copy).  What is *not* captured by this theorem — that the
+real copy shares no mutable map / trie node with the original — is the oracle `c08-copy-not-independent`
+and the differential (the driver keeps the instances in one table exactly like `runPair`). -/
+
+/-- each instance ends in the state its own commands alone produce -/
+theorem C08_copy_independent (w : World) (cmds : List (Bool × Cmd)) :
+    runPair cmds (w, copy w) = (runCmds (cmdsOf true cmds) w, runCmds (cmdsOf false cmds) (copy w)) :=
+  runPair_proj cmds _
+
+/-- arbitrary commands on the copy never change what the original observes, and arbitrary commands on
+the original never change what the copy observes — which is what the original observed when the copy was
+taken (`C08_copy_obs_reach`) -/
+theorem C08_copy_independent_obs (w : World) (h : Reach w) (cmds : List (Bool × Cmd)) :
+    ((∀ sc ∈ cmds, sc.1 = false) → obs (runPair cmds (w, copy w)).1 = obs w) ∧
+    ((∀ sc ∈ cmds, sc.1 = true) → obs (runPair cmds (w, copy w)).2 = obs w) := by
+  rw [C08_copy_independent]
+  constructor
+  · intro hs
+    have : cmdsOf true cmds = [] := by
+      simp only [cmdsOf, List.map_eq_nil_iff, List.filter_eq_nil_iff]
+      intro sc hsc; simp [hs sc hsc]
+    simp [this, runCmds]
+  · intro hs
+    have : cmdsOf false cmds = [] := by
+      simp only [cmdsOf, List.map_eq_nil_iff, List.filter_eq_nil_iff]
+      intro sc hsc; simp [hs sc hsc]
+    simp only [this, runCmds, List.foldl_nil]
+    exact C08_copy_obs_reach w h
+
+/-! ## (6) read-back of committed state
+
+`reopen v` is the model of `state.New(root, db, snaps)` at the root returned by the `Commit` that produced
+`v`: fresh caches, the accounts and their storage taken from the committed tier (`content`: the live
+objects with their committed storage).  The model has ONE committed tier — account trie, storage tries
+and snapshot layers are abstracted by the function `com` they implement — so there is one `reopen`;
+that trie and snapshot tree return the same is oracle (iii) on the real code.
+
+Excluded from the comparison (`Observation.persistent`) are exactly the observables that are not
+committed state but per-`StateDB`-instance memory, which a fresh `StateDB` has empty: logs and the log
+counter, preimages, access list, transient storage.  Everything else — existence, emptiness, balance,
+nonce, code, storage, committed storage, self-destruct marks (none are left after `Commit`), refund counter
+(zero after `Commit`) — is read back exactly. -/
+
+/-- `reopen` holds exactly the committed content (accounts, committed storage) of the state it is opened from -/
+theorem C08_reopen_content (v : World) : content (reopen v) = content v := reopen_content v
+
+/-- **readback**: for every reachable world and either `deleteEmptyObjects` flag, the state reopened at the
+committed root observes exactly what the committing state observes, on all committed observables -/
+theorem C08_readback (w : World) (h : Reach w) (del : Bool) :
+    obs (reopen (commit del w)) = (obs (commit del w)).persistent := by
+  have hw := reachS_winv h
+  rw [reopen_obs_accounts _ (commit_settled del w hw)]
+  exact accountsOnly_eq_persistent _ (commit_noSuicide del w hw) (commit_refund del w hw)
+
+/-- with mid-transaction copies among the ancestors: the same for the account observables; the
+committing instance may then keep a self-destruct mark and a refund counter (next theorem) -/
+theorem C08_readback_reachAny (w : World) (h : ReachAny w) (del : Bool) :
+    obs (reopen (commit del w)) = (obs (commit del w)).accountsOnly :=
+  reopen_obs_accounts _ (commit_settled del w (reachS_winv h))
+
+/-- why `C08_readback` needs `Reach`: after a mid-transaction `Copy()` the copy's `Commit` keeps the
+self-destruct mark of a live account and the refund counter; the reopened state has neither -/
+theorem C08_readback_midtx_counterexample :
+    ReachAny (copy (run [.j (.setBalance 1 5), .j (.suicide 1), .j (.addRefund 7)] World.init)) ∧
+    (let v := commit false (copy (run [.j (.setBalance 1 5), .j (.suicide 1), .j (.addRefund 7)] World.init))
+     (obs v).suicided 1 = true ∧ (obs (reopen v)).suicided 1 = false ∧
+     (obs v).refund = 7 ∧ (obs (reopen v)).refund = 0) := by
+  refine ⟨ReachS.copy (reachS_run _ ReachS.init) (by simp), ?_⟩
+  decide
+
+/-- **reading back returns what was written**: an account that exists before `Commit(del)` and is not
+swept by the transaction-end `Finalise` (`survives`: not both named by the journal and self-destructed /
+empty-with-`del`) is read back from the committed root with exactly the balance, nonce, code and storage
+it had (`GetState` before the commit = `GetState` = `GetCommittedState` after reopening); every other
+account does not exist in the reopened state. -/
+theorem C08_readback_written (w : World) (h : ReachAny w) (del : Bool) (a : Addr) :
+    (survives del w a = true →
+      (obs (reopen (commit del w))).exist a = true ∧
+      (obs (reopen (commit del w))).balance a = (obs w).balance a ∧
+      (obs (reopen (commit del w))).nonce a = (obs w).nonce a ∧
+      (obs (reopen (commit del w))).code a = (obs w).code a ∧
+      (obs (reopen (commit del w))).state a = (obs w).state a ∧
+      (obs (reopen (commit del w))).committed a = (obs w).state a) ∧
+    (survives del w a = false →
+      (obs (reopen (commit del w))).exist a = false ∧ (obs (reopen (commit del w))).balance a = 0 ∧
+      (obs (reopen (commit del w))).nonce a = 0 ∧ (obs (reopen (commit del w))).code a = [] ∧
+      (obs (reopen (commit del w))).state a = fun _ => 0) := by
+  have hg := commit_getObj del w (C08_reachAny_cleanInvW w h) a
+  have hr := reopen_getObj (commit del w) a
+  rw [hg] at hr
+  simp only [obs, obsCore, survives]
+  cases ho : getObj w.core a with
+  | none => simp [ho] at hr ⊢; simp [hr]
+  | some o =>
+    simp only [ho] at hr
+    cases hk : (dirtyAddrs w.journal a && (o.suicided || (del && o.empty)))
+    · simp [hk] at hr ⊢; simp [hr]
+    · simp [hk] at hr ⊢; simp [hr]
+
+/-! ## (7) effective operations, every reachable start -/
+
+theorem reachS_runBlock {strict : Bool} (blk : List (List Stmt × Boundary)) (w : World) (h : ReachS strict w) :
+    ReachS strict (runBlock blk w) := by
+  induction blk generalizing w with
+  | nil => exact h
+  | cons x rest ih =>
+    obtain ⟨tx, b⟩ := x
+    exact ih _ (.bnd b (reachS_runStmts tx w h))
+
+/-- **root_of_effective_ops without side hypotheses**: from every reachable world — in particular from
+the fresh state `World.init` — a block and its effective (non-reverted) operations end in the same
+core and journal, the same persistent content and the same value of any function of the content. -/
+theorem C08_root_of_effective_ops_reach {R : Type} (root : (Addr → Option Account) → R)
+    (blk : List (List Stmt × Boundary)) (w : World) (h : ReachAny w) :
+    (runBlock blk w).core = (runBlock (effBlock blk) w).core ∧
+    (runBlock blk w).journal = (runBlock (effBlock blk) w).journal ∧
+    root (content (runBlock blk w)) = root (content (runBlock (effBlock blk) w)) :=
+  have hr := C08_reach_revsOK w h
+  ⟨(C08_root_of_effective_ops blk w w hr hr rfl rfl).1, (C08_root_of_effective_ops blk w w hr hr rfl rfl).2,
+   C08_root_of_effective_ops_content root blk w hr⟩
+
+/-- the fresh-state instance named by the property -/
+theorem C08_root_of_effective_ops_fresh {R : Type} (root : (Addr → Option Account) → R)
+    (blk : List (List Stmt × Boundary)) :
+    root (content (runBlock blk World.init)) = root (content (runBlock (effBlock blk) World.init)) :=
+  (C08_root_of_effective_ops_reach root blk World.init .init).2.2
+
+/-- root clause and read-back clause together: committing a block and reopening at the root observes
+the same as committing only the effective operations on a fresh state and reopening there — and (by
+`C08_readback`) that is what the committing state itself observes -/
+theorem C08_effective_ops_readback (blk : List (List Stmt × Boundary)) (del : Bool) :
+    obs (reopen (commit del (runBlock blk World.init))) =
+      obs (reopen (commit del (runBlock (effBlock blk) World.init))) ∧
+    obs (reopen (commit del (runBlock blk World.init))) = (obs (commit del (runBlock blk World.init))).persistent := by
+  refine ⟨?_, C08_readback _ (reachS_runBlock blk _ .init) del⟩
+  obtain ⟨hc, hj, _⟩ := C08_root_of_effective_ops_reach (fun _ => ()) blk World.init .init
+  have : (commit del (runBlock blk World.init)).core = (commit del (runBlock (effBlock blk) World.init)).core := by
+    simp [commit, iroot, finalise, hc, hj]
+  simp only [obs, reopen, content, this]
+
+/-! ## (8) effective operations of UNSTRUCTURED transactions
+
+(3) and (7) take transactions as properly nested scopes.  Here a transaction is ANY list of `Op`:
+`Snapshot`s and `RevertToSnapshot id` for arbitrary ids, in any arrangement (revert to an outer snapshot
+skipping inner ones, stale ids that the code rejects, repeated reverts).  `effOps ops w`
+(`KV/Proofs/WorldTrack.lean`) is computed by bookkeeping beside the run — for every valid revision the
+list of effective operations at its `Snapshot` — exactly as the Go oracle `c08-root-effective-ops` does. -/
+
+/-- **any transaction ends in the (core, journal) of its effective operations alone** (from a transaction
+start: no valid revisions, which is the case after `Finalise`/`IntermediateRoot`/`Commit`, in a fresh, a
+copied and a reopened state) -/
+theorem C08_effective_ops_unstructured (ops : List Op) (w : World) (hr : w.revs = []) :
+    ((run ops w).core, (run ops w).journal) = runJ (effOps ops w) (w.core, w.journal) :=
+  run_effOps ops w hr
+
+/-- a transaction as the chain runs it: optional `Prepare`, any operations, then the boundary that ends it -/
+structure UTx where
+  prep : Option (TxH × Nat)
+  ops : List Op
+  fin : Boundary
+
+/-- `Finalise`, `IntermediateRoot` and `Commit` invalidate every revision -/
+def Boundary.clears : Boundary → Bool
+  | .prepare _ _ => false
+  | _ => true
+
+def UTx.start (x : UTx) (w : World) : World :=
+  match x.prep with
+  | some (h, ti) => prepare h ti w
+  | none => w
+
+def runUTx (x : UTx) (w : World) : World := bnd x.fin (run x.ops (x.start w))
+
+def runUBlock : List UTx → World → World
+  | [], w => w
+  | x :: rest, w => runUBlock rest (runUTx x w)
+
+/-- the same block with every transaction replaced by its effective operations -/
+def effUBlock : List UTx → World → List UTx
+  | [], _ => []
+  | x :: rest, w => { x with ops := (effOps x.ops (x.start w)).map Op.j } :: effUBlock rest (runUTx x w)
+
+theorem bnd_clears_revs (b : Boundary) (w : World) (h : b.clears = true) : (bnd b w).revs = [] := by
+  cases b <;> simp [Boundary.clears] at h <;> rfl
+
+/-- **root_of_effective_ops for arbitrary blocks**: every block of unstructured transactions ends in the
+same core and journal — hence the same content and root — as the block of its effective operations -/
+theorem C08_root_of_effective_ops_unstructured (blk : List UTx) (w w' : World)
+    (hr : w.revs = []) (hr' : w'.revs = []) (hc : w.core = w'.core) (hj : w.journal = w'.journal)
+    (hfin : ∀ x ∈ blk, x.fin.clears = true) :
+    (runUBlock blk w).core = (runUBlock (effUBlock blk w) w').core ∧
+    (runUBlock blk w).journal = (runUBlock (effUBlock blk w) w').journal := by
+  induction blk generalizing w w' with
+  | nil => exact ⟨hc, hj⟩
+  | cons x rest ih =>
+    simp only [runUBlock, effUBlock]
+    have hs : (x.start w).core = (x.start w').core ∧ (x.start w).journal = (x.start w').journal ∧
+        (x.start w).revs = [] ∧ (x.start w').revs = [] := by
+      unfold UTx.start
+      cases x.prep with
+      | none => exact ⟨hc, hj, hr, hr'⟩
+      | some p => obtain ⟨h, ti⟩ := p; simp [prepare, hc, hj, hr, hr']
+    obtain ⟨hsc, hsj, hsr, hsr'⟩ := hs
+    have e1 := run_effOps x.ops (x.start w) hsr
+    have e2 := run_effOps ((effOps x.ops (x.start w)).map Op.j) (x.start w') hsr'
+    have e3 : effOps ((effOps x.ops (x.start w)).map Op.j) (x.start w') = effOps x.ops (x.start w) := by
+      simpa [effOps] using (effOps_jops (effOps x.ops (x.start w)) (x.start w') ⟨[], []⟩).1
+    rw [e3, ← hsc, ← hsj, ← e1] at e2
+    simp only [Prod.mk.injEq] at e2
+    have hb := bnd_congr x.fin (run x.ops (x.start w))
+      (run ((effOps x.ops (x.start w)).map Op.j) (x.start w')) e2.1.symm e2.2.symm
+    have hcl := hfin x (by simp)
+    have hx : ({ x with ops := (effOps x.ops (x.start w)).map Op.j } : UTx).start w' = x.start w' := rfl
+    simp only [runUTx, hx]
+    exact ih _ _ (bnd_clears_revs _ _ hcl) (bnd_clears_revs _ _ hcl) hb.1 hb.2
+      (fun y hy => hfin y (by simp [hy]))
+
+/-- … from the fresh state, as a statement about any function of the content (the root) -/
+theorem C08_root_of_effective_ops_unstructured_fresh {R : Type} (root : (Addr → Option Account) → R)
+    (blk : List UTx) (hfin : ∀ x ∈ blk, x.fin.clears = true) :
+    root (content (runUBlock blk World.init)) = root (content (runUBlock (effUBlock blk World.init) World.init)) := by
+  have := (C08_root_of_effective_ops_unstructured blk World.init World.init rfl rfl rfl rfl hfin).1
+  unfold content; rw [this]
+
 /-! ## non-vacuity -/
 
 /-- a run with nested snapshots, an inner revert, a stale revert and a panicking SubRefund after which
@@ -250,6 +520,46 @@ example : (jop (.subRefund 1) Core.init).2.2 = .panic ∧ (jop (.subRefund 1) Co
 example : (effStmts [.scope [.op (.setNonce 1 1), .scope [.op (.setNonce 1 2)] true] false]).length = 1 := by
   decide
 
+/-- unstructured: two nested snapshots, a revert to the OUTER one skipping the inner, a stale revert
+(rejected), an operation after it — the effective operations are the first and the last -/
+example : (effOps [.j (.setNonce 1 1), .snapshot, .j (.setNonce 1 2), .snapshot, .j (.setNonce 1 3), .revert 0,
+    .revert 1, .j (.setNonce 2 9)] World.init).length = 2 ∧
+    (obs (run [.j (.setNonce 1 1), .snapshot, .j (.setNonce 1 2), .snapshot, .j (.setNonce 1 3), .revert 0,
+    .revert 1, .j (.setNonce 2 9)] World.init)).nonce 1 = 1 := by decide
+
 example : CleanInv World.init := by intro a o h; simp [World.init, Core.init] at h
+
+/-- `Reach` is not only `World.init`: a world in the middle of the second transaction of a
+between-transaction copy, with a self-destructed account, a storage write and a pending snapshot;
+its copy carries the mark and the uncommitted storage (so `C08_copy_obs_reach` is about non-trivial
+observations) -/
+def sampleReach : World :=
+  run [.j (.setState 1 2 7), .snapshot, .j (.suicide 1), .j (.setNonce 2 1), .j (.setState 2 0 3)]
+    (copy (finalise true (run [.j (.setBalance 1 5), .j (.setState 1 2 4), .j (.addBalance 3 0)] World.init)))
+
+example : Reach sampleReach :=
+  reachS_run _ (ReachS.copy (ReachS.bnd (.finalise true) (reachS_run _ ReachS.init)) (fun _ => rfl))
+
+example : sampleReach.journal.length = 5 ∧ (obs (copy sampleReach)).suicided 1 = true ∧
+    (obs (copy sampleReach)).state 2 0 = 3 ∧ (obs (copy sampleReach)).committed 1 2 = 4 ∧
+    (obs (copy sampleReach)).state 1 2 = 7 := by decide
+
+/-- read-back is about non-empty content, and both branches of `C08_readback_written` occur: account 1
+self-destructed in this transaction (swept), account 2 written (read back), account 3 was created empty in
+the first transaction and deleted by `Finalise(true)` -/
+example : survives true sampleReach 1 = false ∧ survives true sampleReach 2 = true ∧
+    (obs sampleReach).exist 1 = true ∧ (obs (reopen (commit true sampleReach))).exist 1 = false ∧
+    (obs (reopen (commit true sampleReach))).state 2 0 = 3 ∧ (obs sampleReach).exist 3 = false := by decide
+
+/-- an account that is not named by the journal survives with its committed storage -/
+example : survives true (run [.j (.setState 2 0 3)] (copy (finalise true (run [.j (.setBalance 1 5), .j (.setState 1 2 4)] World.init)))) 1 = true ∧
+    (obs (reopen (commit true (run [.j (.setState 2 0 3)] (copy (finalise true (run [.j (.setBalance 1 5), .j (.setState 1 2 4)] World.init))))))).state 1 2 = 4 := by
+  decide
+
+/-- two instances, interleaved commands: the original is untouched by what the copy does and vice versa -/
+example :
+    (let r := runPair [(false, .op (.j (.setBalance 2 9))), (false, .bnd (.commit true)), (true, .op (.j (.setNonce 2 5)))]
+      (sampleReach, copy sampleReach)
+     (obs r.1).balance 2 = 0 ∧ (obs r.1).nonce 2 = 5 ∧ (obs r.2).balance 2 = 9 ∧ (obs r.2).nonce 2 = 1) := by decide
 
 end KV.World
